@@ -3,3 +3,7 @@ import Properties.C17
 #print axioms Hive.C17.reachable
 #print axioms Hive.C17.initial
 #print axioms Hive.C17.cleared_on_leave
+#print axioms Hive.C17.unique_under_dispatcher
+#print axioms Hive.C17.conv_initial
+#print axioms Hive.C17.run_pairs_waiting
+#print axioms Hive.C17.dispatcher_instructions_ok
